@@ -17,7 +17,8 @@ import (
 func init() {
 	register(&RuleSet{
 		ID: "C16",
-		Explanation: "R1 naming: extractsev.GCETcbObjectName / extracttdx.GCETcbObjectName / verify.GCETcbURL are built only from string constants and the parameter, the measurement enters only through hex.EncodeToString, and the SEV and TDX technology segments are different constants of the form <tech>/%s.binarypb. " +
+		Explanation: "R11 a report the extraction library makes up itself (the placeholder for a bare certificate table) never carries a measurement of the real size (48 bytes): a fabricated value of that size passes the length test of the object-name derivation and names an object no launch measurement stands behind. " +
+			"R1 naming: extractsev.GCETcbObjectName / extracttdx.GCETcbObjectName / verify.GCETcbURL are built only from string constants and the parameter, the measurement enters only through hex.EncodeToString, and the SEV and TDX technology segments are different constants of the form <tech>/%s.binarypb. " +
 			"R2 fetch only for full-length measurements: every HTTPSGetter.Get in extract, verify and gcetcbendorsement whose URL derives from GCETcbURL — the origins of its object-name operand are enumerated; each origin that is a GCETcbObjectName(m) call must, at its own site, be dominated by the equal edge of a comparison of len(m) with 48 for that same m; a constant (empty) origin requires the Get to be dominated by name != \"\"; any other origin is a violation. " +
 			"R3 local first, verbatim (ESP on extract.Endorsement): no Get on a path where event-log evidence or quote evidence was found and ForceFetch is known false; returned evidence is the callee's result value itself. " +
 			"R3c with ForceFetch known true, extract.Endorsement returns success only after a successful network Get (a forced fetch never degrades to local evidence). " +
@@ -45,6 +46,7 @@ func isGetterGet(call ssa.CallInstruction) bool {
 }
 
 func runC16(c *Ctx) {
+	c16NoManufacturedMeasurement(c)
 	defer func() {
 		// R7: a supplied quote reaches the binary parsers byte for byte. What package extract hands to the raw
 		// attestation parsers (go-sev-guest/abi, go-tdx-guest/abi functions and methods taking []byte, proto.Unmarshal)
@@ -1411,4 +1413,59 @@ func nextOf(p *ssa.Phi) (ssa.Value, bool) {
 		}
 	}
 	return nil, false
+}
+
+// c16NoManufacturedMeasurement is R11: the object name of an endorsement is derived from the launch measurement in the
+// quote and from nothing else. Where the extraction packages build an SEV-SNP report themselves (no report came with a
+// bare certificate table), the Measurement they put in is a marker, not a measurement: its length, fixed in the
+// code, must differ from the real measurement size, or the marker is taken for a measurement further down.
+func c16NoManufacturedMeasurement(c *Ctx) {
+	const measurementSize = 48 // go-sev-guest abi.MeasurementSize
+	n := 0
+	for _, f := range c.P.RepoFunctions() {
+		rel := load.RelPkg(f)
+		if !(rel == "extract" || strings.HasPrefix(rel, "extract/")) || c.isTestFunc(f) || f.Blocks == nil {
+			continue
+		}
+		k := 0
+		for _, b := range f.Blocks {
+			for _, in := range b.Instrs {
+				st, ok := in.(*ssa.Store)
+				if !ok {
+					continue
+				}
+				fa, ok := st.Addr.(*ssa.FieldAddr)
+				if !ok || flow.FieldName(fa) != "Measurement" || !namedIs(fa.X.Type(), "github.com/google/go-sev-guest/proto/sevsnp", "Report") {
+					continue
+				}
+				var size int64 = -1
+				switch v := st.Val.(type) {
+				case *ssa.MakeSlice:
+					if kk, ok := constInt(v.Len); ok {
+						size = kk
+					}
+				case *ssa.Slice:
+					if al, ok := v.X.(*ssa.Alloc); ok && v.Low == nil {
+						if at, ok := al.Type().Underlying().(*types.Pointer).Elem().Underlying().(*types.Array); ok {
+							size = at.Len()
+							if v.High != nil {
+								size = -1
+								if hk, ok := constInt(v.High); ok {
+									size = hk
+								}
+							}
+						}
+					}
+				}
+				if size < 0 {
+					continue // taken from the input, not made up here
+				}
+				n++
+				k++
+				c.S.Check(size != measurementSize, "R11", fmt.Sprintf("%s:made-up report measurement #%d", load.FuncName(f), k), c.pos(st.Pos()), fmt.Sprintf("the placeholder measurement has %d byte(s), not the size of a real one", size),
+					"the extraction library puts a 48-byte measurement of its own making into a report: the length test of the object-name derivation takes it for a launch measurement, and an endorsement is looked for (on the network too) under a name no measurement in the quote stands behind")
+			}
+		}
+	}
+	c.S.Floor("R11", "reports made up by the extraction packages", 1, n)
 }
